@@ -66,6 +66,15 @@ def callers_of(p, fid, allowed=None):
     return sorted(p.effective_callers(fid, allowed))
 
 
+def each_fn(p):
+    """every function, in id order: on the inlined evaluation the view of each function that is not itself dissolved into
+    its callers (a rule that looks for a guard before a sink sees the guard a small helper was given)"""
+    for k in sorted(p.raw_fns):
+        if p.inline_mode and p.transparent(p.raw_fns[k].root or k):
+            continue
+        yield p.fns[k]
+
+
 def sites(p, fid, within=None):
     """call sites whose resolved callee is fid"""
     out = []
